@@ -128,10 +128,10 @@ def S3(vc):
 
 
 # =============================================================================================== U2
-@harness('U2', targets='kopf._core.reactor.running.startup_cleanup_activities', props=['C20', 'C09', 'C11', 'C13', 'C03'],
-         prop_clauses={'C09': ['startup_then_started_then_ready'], 'C11': ['errors_propagate'], 'C13': ['cleanup_after_all_other_root_tasks', 'vault_closed_after_cleanup'], 'C03': ['startup_then_started_then_ready']},
+@harness('U2', targets='kopf._core.reactor.running.startup_cleanup_activities', props=['C20', 'C09', 'C11', 'C13', 'C03', 'C12'],
+         prop_clauses={'C09': ['startup_then_started_then_ready'], 'C11': ['errors_propagate'], 'C13': ['cleanup_after_all_other_root_tasks', 'vault_closed_after_cleanup'], 'C03': ['startup_then_started_then_ready'], 'C12': ['core_tasks_outlive_root_tasks']},
          clauses=['startup_then_started_then_ready', 'failed_startup_releases_nothing', 'cleanup_after_all_other_root_tasks',
-                  'core_tasks_always_stopped', 'errors_propagate', 'vault_closed_after_cleanup'],
+                  'core_tasks_always_stopped', 'core_tasks_outlive_root_tasks', 'errors_propagate', 'vault_closed_after_cleanup'],
          canaries=['canary.always_ready', 'canary.always_cleans_up'],
          trusted=['activities.run_activity by contract U2a', 'aiotasks.wait/stop/reraise by contracts S4w/S4/S4r',
                   'aioadapters.raise_flag raises the given flag', 'a fresh asyncio.Event().wait() never returns, it can only be cancelled'])
@@ -152,6 +152,9 @@ def U2(vc):
       * the operator-wide cleanup "that garbage collection cannot do" (docstring): the vault (the API sessions) is
         closed once after the cleanup activity has returned, and never before the cleanup handlers -- the last
         activity that may use the API -- were run.
+        core_tasks_outlive_root_tasks: after a successful startup the core tasks (the credentials retriever) are stopped only
+    after the wait for the other root tasks was started and -- unless that wait itself is cancelled -- has returned: the
+    root tasks can still re-authenticate while they wind down (C12).
     """
     me = Opaque('this-task')
     t1, t2, late = Opaque('root1'), Opaque('root2'), Opaque('root-added-later')
@@ -263,6 +266,16 @@ def U2(vc):
     # -- the core tasks are stopped whatever happens
     stops = [i for i, ev in enumerate(tr) if ev[0] == 'stop']
     vc.ensure('core_tasks_always_stopped', len(stops) == 1 and tr[stops[0]][1] == core_tasks)
+    # -- ... but not while the other root tasks still run: they talk to the API until they are gone, and the credentials
+    #    retriever (a core task) is what re-authenticates them (C12: "a 401 triggers a re-authentication" holds during shutdown too)
+    waits0 = [i for i, ev in enumerate(tr) if ev[0] == 'wait']
+    wait_rets0 = [i for i, n in enumerate(names) if n == 'wait.returned']
+    if i_startup_ok is not None and stops:
+        vc.ensure('core_tasks_outlive_root_tasks', len(waits0) == 1 and waits0[0] < stops[0])
+        if 'aiotasks.wait' not in cancelled_at:
+            vc.ensure('core_tasks_outlive_root_tasks', len(wait_rets0) == 1 and wait_rets0[0] < stops[0])
+    else:
+        vc.ensure('core_tasks_outlive_root_tasks', not waits0)
     # -- cleanup strictly after all other root tasks are done and the core tasks stopped
     cleanups = [i for i, a in runs if a is C]
     vc.ensure('cleanup_after_all_other_root_tasks', len(cleanups) <= 1 and all(a in (S, C) for _, a in runs))
@@ -331,7 +344,7 @@ REQUIRED = {'authenticator': 'C12', 'poster': 'C20', 'condition_chain': 'C18', '
 
 
 @harness('U1', targets='kopf._core.reactor.running.spawn_tasks', props=['C20', 'C12', 'C13', 'C17', 'C18', 'C19', 'C09'],
-         clauses=U1_OLD + ['operator_tasks_present', 'collaborators_given_or_default', 'context_set_before_tasks',
+         clauses=U1_OLD + ['operator_tasks_present', 'collaborators_given_or_default', 'processor_bound_and_objects_shared', 'context_set_before_tasks',
                            'indices_prepared_before_startup', 'peering_settings_from_arguments', 'scope_reaches_observer',
                            'signals_hooked_in_main_thread_only'],
          # C09: the daemon killer must exist exactly once, as a tracked root task, over the same memories as the processor --
@@ -340,6 +353,7 @@ REQUIRED = {'authenticator': 'C12', 'poster': 'C20', 'condition_chain': 'C18', '
                        'every_coroutine_becomes_one_task': ['C20', 'C09'], 'tasks_are_tracked': ['C20', 'C09'],
                        'lifecycle_tasks_present': ['C20', 'C09'],
                        'operator_tasks_present': ['C20', 'C12', 'C18', 'C19'], 'collaborators_given_or_default': ['C20', 'C09'],
+                       'processor_bound_and_objects_shared': ['C20', 'C09', 'C13', 'C18'],
                        'context_set_before_tasks': ['C20', 'C12'], 'indices_prepared_before_startup': ['C20', 'C17'],
                        'peering_settings_from_arguments': ['C20', 'C13'], 'scope_reaches_observer': ['C20', 'C13', 'C19'],
                        'signals_hooked_in_main_thread_only': ['C20']},
@@ -369,6 +383,10 @@ def U1(vc):
         -- one and the same non-None default for all activities; for the registry and the lifecycle THE default ones
         (registries.get_default_registry(), lifecycles.get_default_lifecycle(): where the decorators register), and for
         the identity the generated per-process one (peering.detect_own_id(manual=False): peers of C13 must differ);
+      * the orchestrator's processor is processing.process_resource_event bound to exactly these collaborators plus the
+        pause toggles and the event queue; and what spawn_tasks makes itself and hands to several activities is ONE object
+        everywhere: operator_paused (daemon killer, orchestrator, processor: C13/C09 "daemons stopped while paused"), the
+        event queue (processor -> poster), the webhook container (managers, server; fed by the insights' revised condition);
       * the operator's vault and settings are put into the context variables (auth.vault_var: what every API call
         reads, contract A-series of c12; posting.settings_var) BEFORE the first task is created (tasks copy the context);
       * the indexers are pre-populated from the registry's indexing handlers before anything can run (the first
@@ -554,6 +572,23 @@ def U1(vc):
             vc.ensure('collaborators_given_or_default', vs[0] is D[k])
     vc.ensure('collaborators_given_or_default', {'registry', 'settings', 'vault', 'memo', 'memories', 'insights'} <= set(seen))
     eff = {k: vs[0] for k, vs in seen.items()}
+    # -- objects made here and shared between tasks are the SAME object everywhere; the processor is the resource processor
+    from kopf._core.reactor import processing as _processing
+    orch = [c for c in made if c.fname == 'orchestrator']
+    if command is None:
+        proc = orch[0].kw.get('processor') if orch else None
+        vc.ensure('processor_bound_and_objects_shared', isinstance(proc, functools.partial) and proc.func is _processing.process_resource_event
+                  and not proc.args and set(proc.keywords) == {'lifecycle', 'registry', 'settings', 'indexers', 'memories', 'memobase',
+                                                               'operator_paused', 'event_queue'})
+    for name, holders_ in (('operator_paused', ('daemon_killer', 'orchestrator')), ('event_queue', ('poster', 'orchestrator')),
+                           ('container', ('validating_configuration_manager', 'mutating_configuration_manager', 'admission_webhook_server'))):
+        vals = [flat(c).get(name) for c in made if c.fname in holders_]
+        vc.ensure('processor_bound_and_objects_shared', len(vals) == len([c for c in made if c.fname in holders_]) and
+                  all(v is not None and v is vals[0] for v in vals))
+    chain = [c for c in made if c.fname == 'condition_chain']
+    cont = [flat(c).get('container') for c in made if c.fname == 'admission_webhook_server']
+    vc.ensure('processor_bound_and_objects_shared', len(chain) == 1 and len(cont) == 1 and chain[0].kw.get('target') is getattr(cont[0], 'changed', None)
+              and chain[0].kw.get('source') is getattr(eff.get('insights'), 'revised', None))
     # -- the context variables, before the first task
     names = names_of(vc.trace)
     i_task = first(names, 'task')
